@@ -79,9 +79,10 @@ type shape struct {
 	d    []pcmd
 }
 type pcmd struct {
-	c byte
-	a []float64
+	c    byte
+	a    []float64
 	l, s bool
+	impl bool // written without its command letter (implicit repetition; L after M, l after m)
 }
 
 type node struct {
@@ -211,7 +212,7 @@ func genTf(r *rng.R, d *doc) tf {
 	}
 }
 
-var classPool = []string{"a", "b", "c", "hot"}
+var classPool = []string{"a", "b", "c", "hot", "ab", "hotter", "c1", "c10"} // some names are substrings of others
 var idPool = []string{"i1", "i2", "i3", "main"}
 
 func genAttrs(r *rng.R, d *doc, isShape bool, depth int) []attr {
@@ -371,6 +372,24 @@ func genPathD(r *rng.R) []pcmd {
 	}
 	if r.Bool() {
 		d = append(d, pcmd{c: 'Z'})
+	}
+	// a relative first moveto is absolute; commands that repeat the previous letter (or L after M, l after m) may drop their letter
+	if r.P(1, 3) {
+		d[0].c = 'm'
+		if len(d) > 1 && d[1].c == 'L' && r.P(2, 3) { // coordinate pairs right after a relative moveto are relative linetos
+			d[1] = pcmd{c: 'l', a: []float64{d[1].a[0] - d[0].a[0], d[1].a[1] - d[0].a[1]}}
+		}
+	}
+	for k := 1; k < len(d); k++ {
+		prev := d[k-1].c
+		if prev == 'M' {
+			prev = 'L'
+		} else if prev == 'm' {
+			prev = 'l'
+		}
+		if d[k].c == prev && d[k].c != 'Z' && r.P(1, 2) {
+			d[k].impl = true
+		}
 	}
 	return d
 }
@@ -622,7 +641,11 @@ func (s shape) geomAttrs(r *rng.R) []string {
 	case "path":
 		var sb strings.Builder
 		for _, c := range s.d {
-			sb.WriteByte(c.c)
+			if c.impl {
+				sb.WriteByte(' ')
+			} else {
+				sb.WriteByte(c.c)
+			}
 			if c.c == 'A' {
 				fmt.Fprintf(&sb, "%s %s %s %d %d %s %s", num(c.a[0]), num(c.a[1]), num(c.a[2]), b2i(c.l), b2i(c.s), num(c.a[3]), num(c.a[4]))
 			} else {
@@ -913,6 +936,8 @@ func (s shape) coq() string {
 		switch c.c {
 		case 'M':
 			xs = append(xs, "(CM "+qf(c.a[0])+" "+qf(c.a[1])+")")
+		case 'm':
+			xs = append(xs, "(Cm "+qf(c.a[0])+" "+qf(c.a[1])+")")
 		case 'L':
 			xs = append(xs, "(CL "+qf(c.a[0])+" "+qf(c.a[1])+")")
 		case 'l':
